@@ -317,6 +317,13 @@ func TestVerifC04_TiebreakMeaning(t *testing.T) {
 // matched region, length = trimmed length, pathname = distance of the match
 // from the last path separator; end = ordering by the relative position of the
 // end of the matched region.
+func sat16(n int) uint16 {
+	if n > 65535 {
+		return 65535
+	}
+	return uint16(n)
+}
+
 func TestVerifC04_TiebreakKeys(t *testing.T) {
 	rapid.Check(t, func(t *rapid.T) {
 		algo.Init("default")
@@ -342,6 +349,13 @@ func TestVerifC04_TiebreakKeys(t *testing.T) {
 		nitems := rapid.IntRange(1, 3).Draw(t, "nitems")
 		for k := 0; k < nitems; k++ {
 			text := string(rapid.SliceOfN(rapid.SampledFrom([]rune("abc  xy/_-")), 1, 18).Draw(t, "text"))
+			huge := false
+			if (crit == "length" || crit == "chunk") && rapid.IntRange(0, 11).Draw(t, "huge") == 0 {
+				// lines around and beyond the 16-bit limit of the sort keys (keys saturate at 65535)
+				total := rapid.SampledFrom([]int{65534, 65535, 65536, 65537, 65546, 70000, 131080}).Draw(t, "hugeLen")
+				text += strings.Repeat("z", total-len(text))
+				huge = true
+			}
 			item := vItem(text, int32(k))
 			res, offsets, _ := pat.MatchItem(item, true, util.MakeSlab(slab16Size, slab32Size))
 			if res == nil {
@@ -380,9 +394,9 @@ func TestVerifC04_TiebreakKeys(t *testing.T) {
 				for e < len(runes) && runes[e] != ' ' {
 					e++
 				}
-				want = uint16(e - b)
+				want = sat16(e - b)
 			case "length":
-				want = uint16(trimLen)
+				want = sat16(trimLen)
 			case "pathname":
 				last := strings.LastIndexByte(text, '/')
 				if last <= minB { // text is ASCII here
@@ -400,6 +414,10 @@ func TestVerifC04_TiebreakKeys(t *testing.T) {
 						}
 					}
 				}
+			}
+			if huge {
+				vstat.Label("C04/tiebreak-keys", "line_beyond_16_bits")
+				text = fmt.Sprintf("%s...(%d characters)", text[:24], len(text))
 			}
 			vstat.Case("C04/tiebreak-keys", crit+"|"+query+"|"+text, len(offsets) >= 2, "criterion="+crit, fmt.Sprintf("terms=%d", len(offsets)), fmt.Sprintf("nested=%v", nested))
 			if crit != "end" && got != want {
